@@ -434,7 +434,7 @@ pub fn run(ctx: &Ctx) -> Outcome {
                 }
             }
         }
-        rep.sample(case_json(vec![("family", (*fam).into()), ("dir", dir.s().into()), ("cfg", cfg.name.as_str().into()), ("actions", J::Arr(vec!["feed(1 block)".into(), "feed(2 blocks)".into(), "feed(PAR+1 blocks)".into(), "reinstantiate(iv_state -> inner_iv_init)".into()])), ("max_blocks", nmax.into()), ("max_cuts_per_history", "3 (seekable cores: 2 quick / 3 thorough; width >= 7: 1 / 2)".into())]));
+        rep.sample(case_json(vec![("family", (*fam).into()), ("dir", dir.s().into()), ("cfg", cfg.name.as_str().into()), ("actions", J::Arr(vec!["feed(0|1|2|PAR|PAR+1|2*PAR blocks) through the multi-block call".into(), "via(single-block call in place / b2b)".into(), "via(write_keystream_block / write_keystream_blocks(PAR+1)) [cores]".into(), "via(caller-supplied closure, five shapes, PAR / PAR+1 blocks)".into(), "set_block_pos(0|1|PAR+1) [seekable cores]".into(), "clone".into(), "reinstantiate(iv_state -> inner_iv_init)".into()])), ("example_history", "[Feed(2), Reinst, Via(6), SetPos(1), Reinst, Feed(1)]".into()), ("max_blocks", nmax.into()), ("max_cuts_per_history", "3 (seekable cores: 2 quick / 3 thorough; width >= 7: 1 / 2)".into())]));
         rep.finish()
     });
     // buffered CFB: every byte position
